@@ -1,10 +1,10 @@
-\* C01 thorough: legit chain + forgeries, <= 5 operations
+\* C01 thorough: legit chain + forgeries, <= 4 operations
 INIT Init
 NEXT Next
 CONSTANTS
   AlphaSeq <- AlphaThorough
   Coords <- CoordsThorough
-  MaxOps = 5
+  MaxOps = 4
   AllowUnpub = FALSE
   Monotone = FALSE
   AttackerKeys = {8, 9}
